@@ -12,6 +12,7 @@ from math import gcd
 import vlib
 from vlib import sx, Sym, parse_sx, try_parse, cps
 import fmtlib as F
+import pilib as P
 
 TRUSTED_BASE = [
     'Coq 8.16.1 kernel + vm_compute',
@@ -77,6 +78,45 @@ def gen_trunc_cases(c):
                 for kind in ('dp', 'sf'):
                     for neg in (False, True):
                         out.append((neg and p != 0, p, q, True, bk, (kind, n), False, 'boundary-' + kind))
+    # integers spanning several u128 digit groups, zero runs around the group boundaries,
+    # n sf on both sides of the digit count and of the last non-zero digit
+    for bk in (bases if not quick else [(5, 10), (5, 2), (5, 16), (5, 36), (5, 7), (3, 16)]):
+        b = F.base_val(bk)
+        grp = 1
+        while b ** grp < (2 ** 128 - 1) // b:
+            grp += 1
+        for _ in range(14 if quick else 60):
+            ngroups = r.choice([1, 2, 2, 3, 4])
+            nd = max(3, r.randrange((ngroups - 1) * grp + 1, ngroups * grp + 3))        # digit count around k groups
+            ds = [r.randrange(0, b) for _ in range(nd)]
+            ds[0] = r.randrange(1, b)
+            how = r.randrange(5)
+            if how == 0:        # zero run ending exactly at a group boundary (counted from the right)
+                z = r.choice([grp - 1, grp, grp + 1, 2 * grp, 1, 2])
+                for i in range(min(z, nd - 1)):
+                    ds[nd - 1 - i] = 0
+            elif how == 1:      # zero run straddling a boundary, non-zero digits below it
+                lo = max(1, nd - grp - r.randrange(1, 4))
+                for i in range(lo, min(nd - 1, lo + r.randrange(2, 7))):
+                    ds[i] = 0
+                ds[nd - 1] = r.randrange(1, b)
+            elif how == 2:      # a single non-zero digit far to the right
+                for i in range(1, nd):
+                    ds[i] = 0
+                ds[r.randrange(max(1, nd - grp - 2), nd)] = r.randrange(1, b)
+            elif how == 3:      # all zeros after the first digit
+                for i in range(1, nd):
+                    ds[i] = 0
+            v = 0
+            for d in ds:
+                v = v * b + d
+            last_nz = max(i for i, d in enumerate(ds) if d != 0) + 1      # significant digits needed for exactness
+            for n in sorted(set([1, last_nz - 1, last_nz, last_nz + 1, nd - 1, nd, nd + 1, nd - grp, nd - grp + 1, grp, grp + 1, 37, 38, 39, 40])):
+                if n >= 1:
+                    out.append((r.random() < 0.3, v, 1, True, bk, ('sf', n), False, 'bigint-sf'))
+            out.append((False, v, 1, True, bk, ('dp', r.randrange(0, 5)), False, 'bigint-dp'))
+            # the same integer plus a fraction: sf beyond the integer part
+            out.append((False, v * 8 + r.randrange(1, 8), 8, True, bk, ('sf', nd + r.randrange(0, 4)), False, 'bigint-frac-sf'))
     # random
     for _ in range(600 if quick else 15000):
         bk = r.choice(bases)
@@ -130,6 +170,50 @@ def check_trunc(c):
             c.violation('unmarked-text-misstates-value', {'kind': 'impl-vs-spec', 'op': 'read', 'line': lines[i], 'x': str(x),
                                                           'impl_text': F.res_text(impl[i]), 'read': o})
     c.sample({'op': 'fmt-rat', 'line': lines[len(lines) // 3], 'impl': F.res_text(impl[len(lines) // 3])})
+
+
+# ---------------------------------------------------------------------------
+def check_int_sf(c):
+    """L1 BigUint::format with an sf limit on raw limbs: multi-group integers"""
+    r = c.rng
+    quick = c.tier == 'quick'
+    cases = []
+    for bk in [(5, b) for b in ((2, 3, 7, 10, 16, 36) if quick else range(2, 37))]:
+        b = bk[1]
+        grp = 1
+        while b ** grp < (2 ** 128 - 1) // b:
+            grp += 1
+        for _ in range(25 if quick else 120):
+            nd = r.randrange(1, 4 * grp + 3)
+            v = r.randrange(b ** (nd - 1), b ** nd)
+            tz = r.choice([0, 0, 1, 2, grp - 1, grp, grp + 1, 2 * grp, nd - 1])
+            tz = min(tz, nd - 1)
+            v = v // b ** tz * b ** tz
+            if r.random() < 0.3:        # a zero block in the middle, across a group boundary
+                k = r.randrange(0, nd)
+                w = r.randrange(1, 6)
+                v = v - (v // b ** k % b ** w) * b ** k
+            if v == 0:
+                v = b ** (nd - 1)
+            ds = F.int_digits(v, b)
+            need = len(ds.rstrip('0'))
+            for sf in sorted(set([0, 1, need - 1, need, need + 1, len(ds) - 1, len(ds), len(ds) + 1, grp, grp + 1, len(ds) - grp])):
+                if sf >= 0:
+                    cases.append((v, bk, sf))
+    lines = [sx([Sym('fmt-int'), F.limbs(v), int(len(F.limbs(v)) > 1), bk[0], bk[1], 0, 1, sf]) for (v, bk, sf) in cases]
+    impl = c.impl('fmt', lines)
+    model = c.model('fmt', lines)
+    for i, (v, bk, sf) in enumerate(cases):
+        b = bk[1]
+        ds = F.int_digits(v, b)
+        c.note_case('isf:%d:%d:%d' % (v, b, sf), len(ds) > 38 or b != 10, 'int-sf' + (':multi-group' if v >= 2 ** 128 // b else ''))
+        sh = ds[:sf] + '0' * max(0, len(ds) - sf)
+        want = sx([b'ok', cps(sh), int(sh == ds), len(ds)])
+        if impl[i] != want:
+            c.violation('integer-sf-wrong', {'kind': 'impl-vs-spec', 'op': 'fmt-int', 'line': lines[i], 'value': str(v), 'base': b, 'sf': sf,
+                                             'impl': impl[i], 'expected': want})
+        elif impl[i] != model[i]:
+            c.violation('fmt-int-model-differs', {'kind': 'impl-vs-model', 'op': 'fmt-int', 'line': lines[i], 'impl': impl[i], 'model': model[i]}, no_input=True)
 
 
 # ---------------------------------------------------------------------------
@@ -208,11 +292,23 @@ def check_pow(c):
               (Fraction(0), Fraction(-1, 2), 'zero-neg'), (Fraction(4), Fraction(1, 2), 'perfect'), (Fraction(2), Fraction(1, 2), 'sqrt2'),
               (Fraction(1), Fraction(7, 3), 'one'), (Fraction(5, 3), Fraction(1), 'pow-one'), (Fraction(10 ** 40), Fraction(1, 4), 'perfect'),
               (Fraction(10 ** 40 + 1), Fraction(1, 4), 'near-num')]
-    lines = [sx([Sym('pow-rat'), rawrat(x), rawrat(e)]) for (x, e, kind) in cases]
+    # raw, UNREDUCED numerator/denominator pairs for base and exponent (common factors that are not
+    # themselves perfect powers): the value is what counts
+    raws = {}
+    for idx, (x, e, kind) in enumerate(cases):
+        if idx % 2 == 0 and x > 0:
+            f = r.choice([2, 3, 5, 6, 7, 10, 12, 2 ** 64 + 1])
+            g = r.choice([1, 1, 2, 3])
+            raws[idx] = ([0, F.limbs(x.numerator * f), F.limbs(x.denominator * f), 1, 5, 10],
+                         [int(e < 0), F.limbs(abs(e.numerator) * g), F.limbs(e.denominator * g), 1, 5, 10])
+    lines = [sx([Sym('pow-rat'), raws[i][0] if i in raws else rawrat(x), raws[i][1] if i in raws else rawrat(e)])
+             for i, (x, e, kind) in enumerate(cases)]
     impl = c.impl('fmt', lines)
     model = c.model('fmt', lines)
     eps = Fraction(1, 10 ** 12)
     for i, (x, e, kind) in enumerate(cases):
+        if i in raws:
+            kind = kind + ':unreduced-raw'
         c.note_case('p:%s^%s' % (x, e), e.denominator > 1, 'pow:' + kind)
         pi, pm = try_parse(impl[i]), try_parse(model[i])
         if not isinstance(pi, list):
@@ -424,6 +520,237 @@ def check_flags(c):
 
 
 # ---------------------------------------------------------------------------
+# the Real layer: rationals and symbolic multiples of pi
+
+def gen_rexpr(r, depth):
+    if depth == 0 or r.random() < 0.2:
+        k = r.random()
+        if k < 0.45:
+            q = Fraction(r.randrange(-6, 13), r.randrange(1, 6))
+            if r.random() < 0.15:
+                q = Fraction(r.choice([0, 10 ** r.randrange(5, 34)]))
+            return ['lit', int(q < 0), abs(q.numerator), q.denominator]
+        if k < 0.9:
+            m = Fraction(r.randrange(1, 9), r.randrange(1, 7))
+            if r.random() < 0.5:
+                return ['pi']
+            return ['mul', ['lit', 0, m.numerator, m.denominator], ['pi']]
+        return ['approx', ['lit', 0, r.randrange(0, 4), 1]]
+    k = r.choice(['add', 'sub', 'sub', 'mul', 'mul', 'div', 'div', 'div', 'neg', 'pow', 'int'])
+    if k == 'neg':
+        return ['neg', gen_rexpr(r, depth - 1)]
+    if k == 'pow':
+        return ['pow', gen_rexpr(r, depth - 1), r.choice([0, 1, 2, 2, 3])]
+    if k == 'int':
+        return [r.choice(['floor', 'ceil', 'round']), gen_rexpr(r, depth - 1)]
+    a = gen_rexpr(r, depth - 1)
+    if k == 'sub' and r.random() < 0.35:
+        return ['sub', a, a]                 # a difference that cancels
+    if k == 'div' and r.random() < 0.25:
+        return ['div', a, a]
+    return [k, a, gen_rexpr(r, depth - 1)]
+
+
+def rexpr_text(e):
+    k = e[0]
+    if k == 'lit':
+        t = '%d/%d' % (e[2], e[3]) if e[3] != 1 else '%d' % e[2]
+        return '(-%s)' % t if e[1] else '(%s)' % t
+    if k == 'pi':
+        return 'pi'
+    if k == 'approx':
+        return '(approx. %s)' % rexpr_text(e[1])
+    if k == 'neg':
+        return '(-%s)' % rexpr_text(e[1])
+    if k == 'pow':
+        return '((%s)^%d)' % (rexpr_text(e[1]), e[2])      # `f(x)^2` parses as f(x^2) in fend
+    if k in ('floor', 'ceil', 'round'):
+        return '%s(%s)' % (k, rexpr_text(e[1]))
+    op = {'add': '+', 'sub': '-', 'mul': '*', 'div': '/'}[k]
+    return '(%s %s %s)' % (rexpr_text(e[1]), op, rexpr_text(e[2]))
+
+
+def rexpr_sx(e):
+    k = e[0]
+    if k == 'lit':
+        return [Sym('lit'), e[1], e[2], e[3]]
+    if k == 'pi':
+        return [Sym('pi')]
+    if k == 'pow':
+        return [Sym('pow'), rexpr_sx(e[1]), e[2]]
+    return [Sym(k)] + [rexpr_sx(x) for x in e[1:]]
+
+
+class Undecided(Exception):
+    pass
+
+
+def rexpr_true(e):
+    """(value in Q(pi), uses an `approx.` operand); ZeroDivisionError / Undecided"""
+    k = e[0]
+    if k == 'lit':
+        return P.QPi.rat(Fraction(-e[2] if e[1] else e[2], e[3])), False
+    if k == 'pi':
+        return P.QPi.pi(), False
+    if k == 'approx':
+        return rexpr_true(e[1])[0], True
+    if k == 'neg':
+        v, u = rexpr_true(e[1])
+        return -v, u
+    if k == 'pow':
+        v, u = rexpr_true(e[1])
+        if e[2] == 0 and v.is_zero():
+            raise ZeroDivisionError
+        return v ** e[2], u
+    if k in ('floor', 'ceil', 'round'):
+        v, u = rexpr_true(e[1])
+        from math import floor, ceil
+        fn = {'floor': floor, 'ceil': ceil, 'round': P.round_half_away}[k]
+        z = P.certified(v, fn)
+        if z is None:
+            raise Undecided
+        return P.QPi.rat(z), u
+    a, ua = rexpr_true(e[1])
+    b, ub = rexpr_true(e[2])
+    if k == 'add':
+        return a + b, ua or ub
+    if k == 'sub':
+        return a - b, ua or ub
+    if k == 'mul':
+        return a * b, ua or ub
+    return a / b, ua or ub
+
+
+def frac_text(v):
+    return ('-' if v < 0 else '') + (str(abs(v.numerator)) if v.denominator == 1 else '%d/%d' % (abs(v.numerator), v.denominator))
+
+
+KNOWN_INTFN = 'intfn_of_pi'     # open: floor/ceil/round of a non-zero multiple of pi is flagged exact
+
+
+def check_real(c):
+    r = c.rng
+    n = 600 if c.tier == 'quick' else 5000
+    big = lambda: 10 ** r.randrange(3, 34)
+    L = lambda v: ['lit', int(v < 0), abs(Fraction(v).numerator), Fraction(v).denominator]
+    PI = ['pi']
+    kpi = lambda: ['mul', L(Fraction(r.randrange(1, 9), r.randrange(1, 5))), PI]
+    fam = []
+    for _ in range(25 if c.tier == 'quick' else 200):
+        fam += [
+            ['div', L(r.randrange(1, 50)), kpi()],                                   # rational / pi-multiple
+            ['sub', ['div', L(1), kpi()], ['div', L(1), PI]],                          # differences of such
+            (lambda t: ['sub', t, t])(['div', L(r.randrange(1, 9)), kpi()]),           # ... that cancel
+            ['div', ['div', L(r.randrange(1, 9)), PI], ['div', L(r.randrange(1, 9)), kpi()]],
+            ['mul', ['div', L(r.randrange(1, 9)), kpi()], kpi()],                      # (q/pi) * pi
+            ['mul', kpi(), kpi()],                                                     # pi * pi
+            ['div', ['mul', kpi(), kpi()], kpi()],
+            ['div', kpi(), kpi()],                                                     # exact: ratio of multiples
+            ['add', kpi(), kpi()], ['sub', kpi(), PI],                                 # exact: sums of multiples
+            ['mul', L(Fraction(r.randrange(1, 9), r.randrange(1, 9))), kpi()],
+            ['add', L(r.randrange(0, 5)), kpi()],                                      # rational + multiple: approximate
+            ['add', ['sub', PI, PI], L(r.randrange(0, 5))],                            # zero multiple + rational: exact
+            [r.choice(['floor', 'ceil', 'round']), ['div', L(big()), kpi()]],          # integer functions of q/pi
+            [r.choice(['floor', 'ceil', 'round']), ['mul', L(big()), kpi()]],          # ... and of multiples of pi
+            [r.choice(['floor', 'ceil', 'round']), ['div', kpi(), kpi()]],
+            ['pow', kpi(), r.choice([0, 1, 2, 3])], ['pow', ['div', L(2), PI], 2],
+            ['sub', ['pow', PI, 2], ['mul', PI, PI]],
+        ]
+    exprs = fam + [gen_rexpr(r, r.choice([2, 2, 3, 3])) for _ in range(n)]
+    exprs = [e for e in exprs if rexpr_text(e).count('pi') <= 4]      # keeps the unreduced 64-digit stand-ins for pi from piling up
+    # the rational fend uses for pi
+    pio = F.res_text(c.impl('fmt', [sx([Sym('eval'), 0, cps('pi to fraction')])])[0])
+    try:
+        piq = Fraction(pio[1].replace('approx. ', ''))
+    except Exception:
+        c.violation('pi-approximation-unreadable', {'kind': 'impl-crash', 'op': 'eval', 'expr': 'pi to fraction', 'impl': pio})
+        return
+    if not (P.PI_LO - Fraction(1, 10 ** 20) < piq < P.PI_HI + Fraction(1, 10 ** 20)):
+        c.violation('pi-approximation-off', {'kind': 'impl-vs-spec', 'op': 'eval', 'expr': 'pi to fraction', 'impl': pio})
+    lines = [sx([Sym('eval'), 0, cps(rexpr_text(e) + ' to fraction')]) for e in exprs]
+    mlines = [sx([Sym('rflag'), piq.numerator, piq.denominator, rexpr_sx(e)]) for e in exprs]
+    slines = [sx([Sym('sval'), rexpr_sx(e)]) for e in exprs]
+    impl = c.impl('fmt', lines)
+    model = c.model('fmt', mlines)
+    svals = c.model('fmt', slines)
+    for i, e in enumerate(exprs):
+        t = rexpr_text(e)
+        try:
+            tv, uses_apx = rexpr_true(e)
+            err = None
+        except ZeroDivisionError:
+            tv, uses_apx, err = None, False, 'div0'
+        except Undecided:
+            tv, uses_apx, err = None, False, 'undecided'
+        has_pi = 'pi' in t
+        c.note_case('R:' + t, has_pi, 'real:' + ('approx-leaf' if uses_apx else 'pi' if has_pi else 'rational'))
+        got = F.res_text(impl[i])
+        pm = try_parse(model[i])
+        if err == 'div0':
+            if got[0] != 'err':
+                c.violation('real-div-by-zero-missed', {'kind': 'impl-vs-spec', 'op': 'eval', 'expr': t, 'impl': got})
+            elif not (isinstance(pm, list) and pm[0] == b'err'):
+                c.violation('real-model-differs', {'kind': 'impl-vs-model', 'op': 'rflag', 'expr': t, 'impl': got, 'model': model[i]}, no_input=True)
+            continue
+        if got[0] == 'crash' and 'hang' in str(got[1]):
+            c.notes.append('slow (>10 s) evaluation skipped: ' + t[:120])
+            continue
+        if got[0] != 'ok':
+            # fend can also divide by an approximated zero etc.; the model must agree
+            if not (isinstance(pm, list) and pm[0] == b'err'):
+                c.violation('real-eval-failed', {'kind': 'impl-vs-model', 'op': 'eval', 'expr': t, 'impl': got, 'model': model[i]}, no_input=True)
+            continue
+        marked = got[1].startswith('approx. ')
+        body = got[1][8:] if marked else got[1]
+        model_ok = isinstance(pm, list) and pm[0] == b'ok'
+        in_known = model_ok and pm[5] == 1
+        # ---- property verdict: an unmarked text must be the true value, and nothing approximate may be in it
+        if not marked and err is None:
+            rv = tv.rational()
+            bad = uses_apx or rv is None or frac_text(rv) != body
+            if bad:
+                if in_known and c.known_finding(KNOWN_INTFN):
+                    pass
+                else:
+                    c.violation('unmarked-result-misstates-value', {'kind': 'impl-vs-spec', 'op': 'eval', 'expr': t + ' to fraction', 'impl': got,
+                                                                    'true_value_rational': None if rv is None else str(rv),
+                                                                    'uses_approx_operand': uses_apx, 'in_known_class': in_known})
+                    continue
+        # ---- the Coq symbolic reference against the independent Q(pi) arithmetic (spec vs spec)
+        ps = try_parse(svals[i])
+        if err is None and isinstance(ps, list) and ps[0] == b'some':
+            a, b2 = F.q_of(ps[1][0]), F.q_of(ps[1][1])
+            if not (tv - (P.QPi.rat(a) + P.QPi.rat(b2) * P.QPi.pi())).is_zero():
+                c.violation('sval-disagrees-with-Qpi', {'kind': 'spec-vs-spec', 'expr': t, 'sval': svals[i]}, no_input=True)
+        # ---- correspondence: pattern value and flag
+        if in_known and any(k.get('class') == KNOWN_INTFN and k.get('status', 'open') == 'open' for k in c.known):
+            continue        # the mirror is deliberately bug-compatible there
+        if not model_ok:
+            c.violation('real-model-differs', {'kind': 'impl-vs-model', 'op': 'rflag', 'expr': t, 'impl': got, 'model': model[i]}, no_input=True)
+            continue
+        mval = F.q_of(pm[3])
+        mflag = (pm[4] == 1) and pm[1] == b's'
+        if body != frac_text(mval) or marked == mflag:
+            c.violation('real-model-differs', {'kind': 'impl-vs-model', 'op': 'rflag', 'expr': t, 'impl': got, 'model': model[i]}, no_input=True)
+    c.sample({'op': 'eval', 'expr': rexpr_text(exprs[3]) + ' to fraction', 'impl': F.res_text(impl[3])})
+    # plain (auto) display of integer-valued functions: no truncation there either
+    il = [e for e in exprs if e[0] in ('floor', 'ceil', 'round')][:200]
+    io = c.impl('fmt', [sx([Sym('eval'), 0, cps(rexpr_text(e))]) for e in il])
+    for e, o in zip(il, io):
+        got = F.res_text(o)
+        try:
+            tv, uses_apx = rexpr_true(e)
+        except Exception:
+            continue
+        if got[0] == 'ok' and not got[1].startswith('approx. '):
+            rv = tv.rational()
+            if uses_apx or rv is None or frac_text(rv) != got[1]:
+                if not c.known_finding(KNOWN_INTFN):
+                    c.violation('unmarked-integer-function-misstates-value', {'kind': 'impl-vs-spec', 'op': 'eval', 'expr': rexpr_text(e), 'impl': got,
+                                                                              'true_value': None if rv is None else str(rv)})
+
+
+# ---------------------------------------------------------------------------
 def check_l2(c):
     r = c.rng
     n = 300 if c.tier == 'quick' else 5000
@@ -461,7 +788,18 @@ def check_l2(c):
         rc.append((x, k, fn))
     rl = []
     for (x, k, fn) in rc:
-        xs = '(%d/%d)' % (x.numerator, x.denominator)
+        # the base is written as arithmetic that leaves it unreduced inside fend: a common factor,
+        # a product of two fractions, or a decimal times an integer
+        f = r.choice([1, 2, 3, 6, 10, 14])
+        form = r.randrange(4)
+        if form == 0:
+            xs = '(%d/%d)' % (x.numerator * f, x.denominator * f)
+        elif form == 1:
+            xs = '((%d/%d) * (%d/%d))' % (x.numerator, f, f, x.denominator)
+        elif form == 2:
+            xs = '(%d * 0.5 / (%d/2))' % (x.numerator * f, x.denominator * f)
+        else:
+            xs = '(%d/%d)' % (x.numerator, x.denominator)
         e = '%s%s' % (fn, xs) if fn in ('sqrt', 'cbrt') else '%s^(1/%d)' % (xs, k)
         rl.append(sx([Sym('eval'), 0, cps(e + ' to fraction')]))
     ro = c.impl('fmt', rl)
@@ -494,9 +832,11 @@ def check(c):
     if c.tier == 'thorough':
         c.thorough_proof(['C03'])
     check_trunc(c)
+    check_int_sf(c)
     check_iroot(c)
     check_pow(c)
     check_flags(c)
+    check_real(c)
     check_l2(c)
 
 
